@@ -139,6 +139,11 @@ class Interp:
         self.timeline = []  # chronological ("call"|"ext", name, record)
         self.numeric = []  # (site, idiom, argument, call stack): floating-point hazards of algebraically valid rewrites
         self.interop = []  # (site, ndarray value, index tensor): numpy array indexed by a torch tensor whose length may be 1
+        self._effects_seen = False
+        self._written_in_op = set()
+        self._read_first = set()
+        self.read_before_write = set()  # (id(instance), attribute): read in the current operation before the operation (re)assigned it
+        self.exhausted = []  # (site, kind, call stack) of every loop over an iterator object that an earlier loop already consumed
         self.reductions = []  # (site, op, reduced dimension symbols, call stack) of every sum / mean / ... over known axes
         self.gen_consumers = []  # scopes of loops that are being fed by a running generator (their names are loop-carried too)
         self.yield_handlers = []  # (index of the first generator frame, callback) of the generators that are running
@@ -203,7 +208,20 @@ class Interp:
         self.all_dicts.append(o)
         return VDict(o)
 
+    def _op_tick(self):
+        """The effect log is cleared by a rule right before the operation it examines: the first event after that starts a new
+        'operation' for the read-before-write bookkeeping of instance attributes."""
+        if not self.effects:
+            if self._effects_seen:
+                self._effects_seen = False
+                self._written_in_op = set()
+                self._read_first = set()
+                self.read_before_write = set()
+        else:
+            self._effects_seen = True
+
     def effect(self, kind, obj, node, detail=""):
+        self._op_tick()
         origins = set()
         if isinstance(obj, TObj):
             for r in obj.roots():
@@ -353,6 +371,8 @@ class Interp:
         if v is not None:
             return v
         mod = fr.module
+        if (mod.name, name) in self.module_consts:
+            return self.module_consts[(mod.name, name)]  # a module binding, possibly re-assigned through `global`
         r = self.program.resolve_in_module(mod, name)
         if r is not None:
             return self.from_resolution(r, name)
@@ -394,7 +414,13 @@ class Interp:
         raise ContinueEx()
 
     def st_Global(self, st):
-        pass
+        # names declared global in this function: reads and writes go to the module's binding, which lives as long as the
+        # interpretation (a value stored by one call is what the next call finds)
+        fr = self.frames[-1]
+        g = fr.__dict__.setdefault("global_names", set())
+        g.update(st.names)
+        for n in st.names:
+            fr.env.pop(n, None)
 
     def st_Import(self, st):
         for a in st.names:
@@ -530,7 +556,12 @@ class Interp:
 
     def assign(self, target, v, node):
         if isinstance(target, ast.Name):
-            self.frames[-1].env[target.id] = v
+            fr_ = self.frames[-1]
+            if target.id in getattr(fr_, "global_names", ()):
+                self.module_consts[(fr_.module.name, target.id)] = v
+                self.effect("setattr", "module:" + fr_.module.name, node, "global " + target.id)
+                return
+            fr_.env[target.id] = v
         elif isinstance(target, (ast.Tuple, ast.List)):
             items = self.unpack(v, len(target.elts), node)
             for t, x in zip(target.elts, items):
@@ -596,6 +627,20 @@ class Interp:
 
     def st_For(self, st):
         it = self.eval(st.iter)
+        if getattr(it, "one_shot", False):
+            # zip(...) / map(...) objects are iterators: a second loop over the same object finds it exhausted
+            root = it
+            while getattr(root, "wraps", None) is not None:
+                root = root.wraps  # enumerate(z): walking it walks z
+            if root is not it:
+                if getattr(root, "consumed", False):
+                    it.consumed = True
+                root.consumed = True
+            if getattr(it, "consumed", False):
+                self.exhausted.append((self.site(st), getattr(it, "tag", "iterator"), tuple(self.stack)))
+                self.exec_block(st.orelse)
+                return
+            it.consumed = True
         if isinstance(it, VGen):
             # the generator's body runs here; every yield executes this loop's body in this loop's frame
             broke = []
@@ -748,6 +793,17 @@ class Interp:
             if items:
                 return items[0] if first else VUnknown("elem@%s" % sid, "unknown")
         if isinstance(it, VList) and it.obj.elem is not None:
+            el, ci = it.obj.elem, getattr(it.obj, "comp_iter", None)
+            if (isinstance(el, VTens) and el.term is not None and isinstance(ci, tuple) and ci and ci[0] == "range" and ci[1] == T.ZERO and ci[3] == T.ONE
+                    and getattr(st, "lineno", None) is not None):
+                # item number k of a list built over range(0, n) is the item of index k: inside this loop the list's own index
+                # symbol is this loop's position symbol
+                own = [n_ for n_ in el.term.syms() if n_.startswith("i@") and n_ != "i@%s" % sid]
+                if len(own) == 1:
+                    r = self.fresh(T.rename_syms(el.term, {own[0]: "i@%s" % sid}), el.shape, el.kind, st)
+                    r.obj.valkind = el.obj.valkind
+                    r.obj.fw = el.obj.fw
+                    return r
             return it.obj.elem
         if isinstance(it, (VList, VIter, VTuple)):
             return VUnknown("elem@%s" % sid, "unknown")  # a list the analyser cannot enumerate: one generic element
@@ -923,10 +979,28 @@ class Interp:
         return self.lookup_name(node.id, node)
 
     def ev_JoinedStr(self, node):
+        # f"...{x!r}...": the same string "..." + repr(x) + "..." builds, when every piece is a known string
+        parts, known = [], True
         for v in node.values:
             if isinstance(v, ast.FormattedValue):
-                self.eval(v.value)
-        return VUnknown("fstring", "str")
+                x = self.eval(v.value)
+                if v.format_spec is not None:
+                    known = False
+                    continue
+                try:
+                    sv = self.ops.call_ext(self, "builtins." + ("repr" if v.conversion == ord("r") else "str"), [x], {}, node)
+                except Unsupported:
+                    sv = None
+                ok, c = const_of(sv) if sv is not None else (False, None)
+                if ok and isinstance(c, str):
+                    parts.append(c)
+                else:
+                    known = False
+            elif isinstance(v, ast.Constant) and isinstance(v.value, str):
+                parts.append(v.value)
+            else:
+                known = False
+        return VConst("".join(parts)) if known else VUnknown("fstring", "str")
 
     def ev_Tuple(self, node):
         return VTuple(self.eval_seq(node.elts))
@@ -1209,6 +1283,8 @@ class Interp:
             kw = dict(f.kwargs)
             kw.update(kwargs)
             return self.call_value(f.func, list(f.args) + list(args), kw, node)
+        if isinstance(f, VObj) and f.inst.cls is None and getattr(f.inst, "ext", None) == "weakref.ref" and not args:
+            return f.inst.attrs["referent"]
         if isinstance(f, VObj) and f.inst.cls is None and getattr(f.inst, "ext", None) == "collections.namedtuple":
             fields = f.inst.attrs["fields"]
             vals = list(args) + [None] * (len(fields) - len(args))
@@ -1572,6 +1648,10 @@ class Interp:
             if d is not None and (d.inst.cls is None or d.inst.cls.find_method("__set__") is not None or attr not in inst.attrs):
                 return self._descr_get(d, objv, inst.cls, node)
         if attr in inst.attrs and not (inst.cls and inst.cls.find_prop(attr)):
+            self._op_tick()
+            k_ = (id(inst), attr)
+            if k_ not in self._written_in_op:
+                self._read_first.add(k_)
             return inst.attrs[attr]
         cls = inst.cls
         if cls is None:
@@ -1675,6 +1755,10 @@ class Interp:
                 self.effect("rebind-param", inst, node, attr)
             else:
                 self.effect("setattr", inst, node, attr)
+            k_ = (id(inst), attr)
+            if k_ in self._read_first and k_ not in self._written_in_op:
+                self.read_before_write.add(k_)  # this operation looked at the attribute's earlier value before assigning it
+            self._written_in_op.add(k_)
             inst.attrs[attr] = v
             return
         if isinstance(base, VTens):
@@ -1721,6 +1805,7 @@ class Interp:
         old = tv.obj
         new = TObj(old.kind, newterm, shape if shape is not None else old.shape, old.origin, old.site)
         new.is_parameter, new.valkind, new.grad, new.version, new.dtype_src = old.is_parameter, old.valkind, old.grad, old.version, old.dtype_src
+        new.ver_id = getattr(old, "ver_id", old.id)  # the python object's version counter stays with it
         for k in ("requires_grad", "device", "dtype"):
             if hasattr(old, k):
                 setattr(new, k, getattr(old, k))
@@ -1909,6 +1994,10 @@ def _count_term(it):
         a, b, c = num_term(it.start), num_term(it.stop), num_term(it.step)
         if a is not None and b is not None and c is not None:
             return ("range", a, b, c)
+    if isinstance(it, VUnknown) and it.tag == "enumerate" and getattr(it, "source", None) is not None:
+        return _count_term(it.source)
+    if isinstance(it, VList) and it.obj.items is None and isinstance(getattr(it.obj, "comp_iter", None), tuple):
+        return it.obj.comp_iter  # a list built by a comprehension over a range has that range's length
     if isinstance(it, VUnknown) and it.tag == "zip" and getattr(it, "sources", None):
         # the loop ends with the first exhausted source: when exactly one source can end it, its count is the loop's
         cs = [_count_term(s) for s in it.sources if not (getattr(s, "endless", False) or (isinstance(s, VObj) and s.inst.cls is not None and s.inst.cls.find_method("__next__") is not None
